@@ -33,6 +33,7 @@ struct World {
   bool stop_event_after_completion = false, stop_event_before_start = false;
   long t_stop_req = -1; bool published = false; bool completed_flag = false; bool first_call_done = false;
   std::function<void()> cb;     // what the completer calls
+  inplace_stop_source* src = nullptr; int reentrant = 0;   // 1: the start event requests stop on the receiver's source itself, 2: the callback event does (same thread, nested inside the handler)
 };
 World* g_w;
 
@@ -52,7 +53,7 @@ struct Recv {
   friend inplace_stop_token tag_invoke(tag_t<get_stop_token>, const Recv& r) noexcept { return r.src->get_token(); }
 };
 
-struct Plan { int subject = 0; int stop_mode = 0; int stop_delay = 0; int cb_delay = 0; bool late_second_call = false; int order[3] = {0, 1, 2}; int nstops = 1; int delays[3] = {0, 0, 0}; };
+struct Plan { int reentrant = 0; int subject = 0; int stop_mode = 0; int stop_delay = 0; int cb_delay = 0; bool late_second_call = false; int order[3] = {0, 1, 2}; int nstops = 1; int delays[3] = {0, 0, 0}; };
 
 template <bool Safe>
 void run_create(const Plan& p, World& W, bool check) {
@@ -64,10 +65,12 @@ void run_create(const Plan& p, World& W, bool check) {
       w.start_events++; w.t_start_event = dk::tick();
       vk::ctx().tr("#%ld body: start event", w.t_start_event);
       if constexpr (Safe) w.cb = safe_callback<>(op); else w.cb = unsafe_callback<>(op);
+      if (w.reentrant == 1) { w.t_stop_req = dk::tick(); vk::ctx().tr("#%ld body: the start event requests stop itself", w.t_stop_req); w.src->request_stop(); }
       w.published = true; detsched::step();
     } else if constexpr (event.is_callback) {
       w.callback_events++;
       vk::ctx().tr("#%ld body: callback event", dk::tick());
+      if (w.reentrant == 2) { w.t_stop_req = dk::tick(); vk::ctx().tr("#%ld body: the callback event requests stop itself", w.t_stop_req); w.src->request_stop(); if (w.stop_events) return; }
       op.set_value(7);
     } else if constexpr (event.is_stop) {
       w.stop_events++; w.t_stop_event = dk::tick();
@@ -80,7 +83,8 @@ void run_create(const Plan& p, World& W, bool check) {
   auto snd = create_basic_sender<int>(std::move(body));
   using Op = connect_result_t<decltype(snd), Recv>;
   dk::OpBox<Op> box;
-  bool stop_planned = p.stop_mode != 0;
+  bool stop_planned = p.stop_mode != 0 || p.reentrant != 0;
+  W.src = &src; W.reentrant = p.reentrant;
   if (p.stop_mode == 1) { W.t_stop_req = dk::tick(); src.request_stop(); }
   box.emplace(std::move(snd), Recv{&src});
   std::thread completer([&] {
@@ -168,9 +172,12 @@ void vk_run_case(vk::Choice& c) {
   auto& cx = vk::ctx();
   Plan p; p.subject = (int)c.upto(3);
   p.stop_mode = (int)c.upto(3); p.stop_delay = (int)c.upto(10); p.cb_delay = (int)c.upto(10); p.late_second_call = c.flag();
+  // a stop request issued by the body's own handler (nested inside it, same thread); derived from the hash, no bytes consumed
+  if (cx.argi("legacy", 0) == 0 && p.subject == 0 && c.h % 4 == 0) { p.reentrant = 1 + (int)((c.h / 4) % 2); p.stop_mode = 0; c.mix((uint64_t)p.reentrant + 5); }
   if (p.subject == 1) p.stop_mode = 0;                       // an unsafe callback may only be used while the operation is known to be alive
   if (p.subject == 2) { p.nstops = 1 + (int)c.upto(3); int perm = (int)c.upto(6); static const int PERM[6][3] = {{0,1,2},{0,2,1},{1,0,2},{1,2,0},{2,0,1},{2,1,0}}; for (int i = 0; i < 3; ++i) { p.order[i] = PERM[perm][i]; p.delays[i] = (int)c.upto(8); } if (p.stop_mode == 2) p.stop_mode = 0; }
-  cx.desc = vk::sfmt("subject=%s stop=%s(+%d) cb_delay=%d late_second_call=%d nstops=%d order=%d%d%d", p.subject == 0 ? "create_basic_sender/safe" : p.subject == 1 ? "create_basic_sender/unsafe" : "stop_on_request",
+  if (p.reentrant) cx.label(p.reentrant == 1 ? "stop-from-inside-start-event" : "stop-from-inside-callback-event");
+  cx.desc = vk::sfmt("%ssubject=%s stop=%s(+%d) cb_delay=%d late_second_call=%d nstops=%d order=%d%d%d", p.reentrant == 1 ? "[start event requests stop] " : p.reentrant == 2 ? "[callback event requests stop] " : "", p.subject == 0 ? "create_basic_sender/safe" : p.subject == 1 ? "create_basic_sender/unsafe" : "stop_on_request",
                      p.stop_mode == 0 ? "none" : p.stop_mode == 1 ? "before-start" : "stopper", p.stop_delay, p.cb_delay, (int)p.late_second_call, p.nstops, p.order[0], p.order[1], p.order[2]);
   bool nt = false;
   detsched::Options o; o.max_steps = 20000;
